@@ -3,9 +3,9 @@
    vertices, the orientation helpers and adjacent_halfface_on_sheet / _on_surface.  Line references:
    src/OpenVolumeMesh/Mesh/HexahedralMeshTopologyKernel.{cc,hh}.  Definitions only.
 
-   The re-ordering path builds a list that may still hold InvalidHalfFaceHandle (-1) entries and hands it to
-   the base add_cell: such a list is a [list (option nat)] here, and the base add_cell's topology check
-   treats -1 exactly as the C++ does (face_handle(-1) = 0, odd index: "halfface 1"). *)
+   The re-ordering path builds a list that may still hold InvalidHalfFaceHandle (-1) entries: such a list is a
+   [list (option nat)] here; since the fix "checked hex add_cell must reject what the re-ordering could not bring
+   into order" a list with an invalid entry, or one that fails check_halfface_ordering, is rejected. *)
 From OVM Require Export Mesh.TetModel.
 From OVM Require Import Base.Int32 Gen.HexOrient.
 Local Open Scope nat_scope.
@@ -64,30 +64,10 @@ Definition order_bot : list nat := [3; 4; 2; 5].
 Definition check_halfface_ordering (s : mesh) (hfs : list nat) : bool :=
   ord_pass s hfs (hx hfs 0) order_top order_top && ord_pass s hfs (hx hfs 1) order_bot order_bot.
 
-(* ------------------------------------------------------------------ base add_cell on a list with invalid entries *)
-
-Definition cell_check_o (s : mesh) (hfs : list (option nat)) : bool :=
-  match hfs with
-  | [] => false
-  | _ =>
-      let hes := sort_nat (concat (map (halfface_o s) hfs)) in
-      if has_adjacent_dup hes then false
-      else length hes =? 2 * length (unique_by (fun a b => a / 2 =? b / 2) hes)
-  end.
-
-Inductive houtcome :=
-| HOk (s : mesh) (r : option nat)
-| HUB.          (* an invalid halfface handle is stored in a cell / used as an index *)
+(* ------------------------------------------------------------------ a list that may hold invalid handles *)
 
 Definition all_some (l : list (option nat)) : option (list nat) :=
   fold_right (fun o acc => match o, acc with Some x, Some t => Some (x :: t) | _, _ => None end) (Some []) l.
-
-Definition add_cell_o (s : mesh) (hfs : list (option nat)) (check : bool) : houtcome :=
-  if check && negb (cell_check_o s hfs) then HOk s None
-  else match all_some hfs with
-       | Some l => let '(s', c) := append_cell s l in HOk s' (Some c)
-       | None => HUB
-       end.
 
 (* ------------------------------------------------------------------ add_cell(halffaces, check) (.cc:75-157) *)
 
@@ -117,16 +97,22 @@ Definition reorder_bottom (s : mesh) (hfs : list nat) : option nat :=
   let he3 := next_he_o s he2 hf1 in
   get_adjacent_halfface s hf1 he3 hfs.
 
-Definition hex_add_cell (s : mesh) (hfs : list nat) (check : bool) : houtcome :=
-  if negb (length hfs =? 6) then HOk s None
-  else if negb (forallb (fun hf => length (face_at s (hf / 2)) =? 4) hfs) then HOk s None
-  else if negb check then let '(s', r) := add_cell s hfs false in HOk s' r
-  else if check_halfface_ordering s hfs then let '(s', r) := add_cell s hfs true in HOk s' r
+(* after the re-ordering (.cc:155-163): every handle valid and check_halfface_ordering of the re-ordered list, or the
+   call is rejected; only then the base add_cell (with its own closedness test) *)
+Definition hex_add_cell (s : mesh) (hfs : list nat) (check : bool) : mesh * option nat :=
+  if negb (length hfs =? 6) then (s, None)
+  else if negb (forallb (fun hf => length (face_at s (hf / 2)) =? 4) hfs) then (s, None)
+  else if negb check then add_cell s hfs false
+  else if check_halfface_ordering s hfs then add_cell s hfs true
   else
     let ord := reorder_top s hfs in
     match reorder_bottom s hfs with
-    | None => HOk s None
-    | Some b => add_cell_o s (upd 1 (Some b) ord) true
+    | None => (s, None)
+    | Some b =>
+        match all_some (upd 1 (Some b) ord) with
+        | None => (s, None)
+        | Some l => if check_halfface_ordering s l then add_cell s l true else (s, None)
+        end
     end.
 
 (* ------------------------------------------------------------------ add_cell(8 vertices, check) (.cc:261-433) *)
@@ -275,24 +261,19 @@ Definition hex_valid (s : mesh) (o : hop) : bool :=
   | HAddCellV vs _ => all_b (live_v s) vs
   end.
 
-Definition hex_exec (s : mesh) (o : hop) : houtcome :=
+Definition hex_exec (s : mesh) (o : hop) : mesh * option nat :=
   match o with
-  | HK (AddFace hes check) => let '(s', r) := hex_add_face s hes check in HOk s' r
-  | HK (AddFaceV vs) => let '(s', r) := hex_add_face_v s vs in HOk s' r
+  | HK (AddFace hes check) => hex_add_face s hes check
+  | HK (AddFaceV vs) => hex_add_face_v s vs
   | HK (AddCell hfs check) => hex_add_cell s hfs check
-  | HK k => let '(s', r) := exec s k in HOk s' r
-  | HAddCellV vs check => let '(s', r) := hex_add_cell_v s vs check in HOk s' r
+  | HK k => exec s k
+  | HAddCellV vs check => hex_add_cell_v s vs check
   end.
 
-Inductive hres := HROk (s : mesh) (r : option nat) | HRRejected | HRUB.
+Inductive hres := HROk (s : mesh) (r : option nat) | HRRejected.
 
 Definition hex_step (s : mesh) (o : hop) : hres :=
-  if hex_valid s o then
-    match hex_exec s o with
-    | HOk s' r => HROk s' r
-    | HUB => HRUB
-    end
-  else HRRejected.
+  if hex_valid s o then let '(s', r) := hex_exec s o in HROk s' r else HRRejected.
 
 Definition hex_run_from (s : mesh) (ops : list hop) : mesh :=
   fold_left (fun s o => match hex_step s o with HROk s' _ => s' | _ => s end) ops s.
